@@ -56,6 +56,17 @@ func open(c *core.Case, s envSpec) *Runner {
 			e.Net.AdvStep(rng, nil)
 		}
 	}
+	if s.Stage < 0 && s.Mode == "caughtup" {
+		// mid-round: the victim holds the round's proposal and its complete block and has prevoted
+		rng := rand.New(rand.NewSource(int64(-s.Stage)))
+		for i := 0; i < 400 && !e.V.Dead; i++ {
+			rs := e.V.CS.GetRoundState()
+			if rs.Proposal != nil && rs.ProposalBlock != nil && rs.Step >= cstypes.RoundStepPrevote && rs.Step <= cstypes.RoundStepPrecommit {
+				break
+			}
+			e.Net.AdvStep(rng, nil)
+		}
+	}
 	rn := &Runner{c: c, run: c.Run, e: e}
 	rn.describe()
 	return rn
@@ -165,7 +176,7 @@ func Main() {
 	r.Finish()
 }
 
-var corpusEnvs = []envSpec{{"caughtup", 3, 0}, {"caughtup", 3, 14}, {"caughtup", 0, 0}, {"syncing", 3, 0}}
+var corpusEnvs = []envSpec{{"caughtup", 3, 0}, {"caughtup", 3, -1}, {"caughtup", 0, 0}, {"syncing", 3, 0}}
 
 // consCorpus: every structural mutation of every consensus message type, under every
 // peer-state prelude, in three node states.
